@@ -4,9 +4,15 @@ set -u
 cd "$(dirname "$0")"
 export GOFLAGS=-mod=mod GOPROXY=off GOSUMDB=off GOTOOLCHAIN=local
 mkdir -p bin evidence replays
+quic="$(go list -m -f '{{.Dir}}' github.com/lucas-clemente/quic-go 2>/dev/null)"
+ovl=""
+if [ -n "$quic" ] && [ -f "$quic/internal/handshake/unsafe.go" ]; then
+  printf '{"Replace":{"%s":"%s"}}\n' "$quic/internal/handshake/unsafe.go" "$(pwd)/overlay/quic_handshake_unsafe_stub.go" > bin/overlay.json
+  ovl="-overlay=bin/overlay.json"
+fi
 rc=0
 for id in $(python3 -c "import json;print(' '.join(c['property_id'].lower() for c in json.load(open('MANIFEST.json'))['checks']))"); do
-  go build -tags verif -o "bin/$id" "./cmd/$id" || rc=1
+  go build $ovl -tags verif -o "bin/$id" "./cmd/$id" || rc=1
 done
-go build -race -tags verif -o bin/c20race ./cmd/c20race || rc=1
+go build $ovl -race -tags verif -o bin/c20race ./cmd/c20race || rc=1
 exit $rc
